@@ -156,6 +156,38 @@ def _yield_from(stmts, func):
     return out if changed else None
 
 
+# ---------------------------------------------------------------------------------------------- any / all
+def _anyall_test(e):
+    """In a truth-test position: any((a, b, c)) == a or b or c, all([a, b]) == a and b  for simple reads a, b, c."""
+    if isinstance(e, ast.UnaryOp) and isinstance(e.op, ast.Not):
+        r = _anyall_test(e.operand)
+        return None if r is None else ast.copy_location(ast.UnaryOp(op=ast.Not(), operand=r), e)
+    if isinstance(e, ast.BoolOp):
+        vals = [(_anyall_test(v) or v) for v in e.values]
+        if any(a is not b for a, b in zip(vals, e.values)):
+            return ast.copy_location(ast.BoolOp(op=e.op, values=vals), e)
+        return None
+    if isinstance(e, ast.Call) and isinstance(e.func, ast.Name) and e.func.id in ('any', 'all') and len(e.args) == 1 \
+            and not e.keywords and isinstance(e.args[0], (ast.Tuple, ast.List)) and len(e.args[0].elts) >= 2 \
+            and all(_simple(x) for x in e.args[0].elts):
+        op = ast.Or() if e.func.id == 'any' else ast.And()
+        return ast.copy_location(ast.BoolOp(op=op, values=list(e.args[0].elts)), e)
+    return None
+
+
+def anyall(func):
+    changed = False
+    for n in ast.walk(func):
+        if isinstance(n, (ast.If, ast.While, ast.IfExp, ast.Assert)):
+            r = _anyall_test(n.test)
+            if r is not None:
+                n.test = r
+                changed = True
+    if changed:
+        ast.fix_missing_locations(func)
+    return changed
+
+
 # ---------------------------------------------------------------------------------------------- walrus
 def _dewalrus(stmts, func):
     """if (x := E): ...  ->  x = E; if x: ...   (also `if not (x := E)`, `if (x := E) is None`, and the same at the top
@@ -1390,6 +1422,9 @@ def simple_passes(modules, log):
             _CLS[0] = cls
             if starargs(fn):
                 log.append('star-argument tuple expanded in %s' % q)
+                changed = True
+            if anyall(fn):
+                log.append('any()/all() over a display written as or/and in %s' % q)
                 changed = True
             if scalar_replace(fn, m.tree):
                 log.append('record of values replaced by its fields in %s' % q)
